@@ -136,14 +136,14 @@ fn run_script<T: Elem, U: Elem>(n: usize, script: &[String]) -> String {
             let _g = ConvGuard; // cleared last, also on unwind
             let t = t;
             match code.as_str() {
-                "c" => { drop(t); Ok(VecElementConversionResult::Converted(U::make(1000 + k as u32))) }
-                "t" => { if let Some(p) = prev { p.touch(); } drop(t); Ok(VecElementConversionResult::Converted(U::make(1000 + k as u32))) }
-                "r" => { if let Some(p) = prev { *p = U::make(2000 + k as u32); } drop(t); Ok(VecElementConversionResult::Converted(U::make(1000 + k as u32))) }
+                "c" => { drop(t); Ok(VecElementConversionResult::Converted(U::make(100000 + k as u32))) }
+                "t" => { if let Some(p) = prev { p.touch(); } drop(t); Ok(VecElementConversionResult::Converted(U::make(100000 + k as u32))) }
+                "r" => { if let Some(p) = prev { *p = U::make(200000 + k as u32); } drop(t); Ok(VecElementConversionResult::Converted(U::make(100000 + k as u32))) }
                 "a" => { drop(t); Ok(VecElementConversionResult::Abandonned) }
-                "e" => { drop(t); Err(ErrVal(3000 + k)) }
-                "p1" => { std::panic::panic_any(Payload(4000 + k)) }
-                "p2" => { drop(t); std::panic::panic_any(Payload(4000 + k)) }
-                _ => { drop(t); let _u = U::make(1000 + k as u32); std::panic::panic_any(Payload(4000 + k)) }
+                "e" => { drop(t); Err(ErrVal(300000 + k)) }
+                "p1" => { std::panic::panic_any(Payload(400000 + k)) }
+                "p2" => { drop(t); std::panic::panic_any(Payload(400000 + k)) }
+                _ => { drop(t); let _u = U::make(100000 + k as u32); std::panic::panic_any(Payload(400000 + k)) }
             }
         };
         if wrapper {
@@ -215,8 +215,8 @@ fn run_zst(n: usize, script: &[String]) -> (String, String) {
             match code.as_str() {
                 "c" | "t" | "r" => Ok(VecElementConversionResult::Converted(UZ)),
                 "a" => Ok(VecElementConversionResult::Abandonned),
-                "e" => Err(ErrVal(3000 + k)),
-                _ => std::panic::panic_any(Payload(4000 + k)),
+                "e" => Err(ErrVal(300000 + k)),
+                _ => std::panic::panic_any(Payload(400000 + k)),
             }
         })
     }));
@@ -252,8 +252,8 @@ fn run_pod(n: usize, script: &[String]) -> (String, String) {
             match code.as_str() {
                 "c" | "t" | "r" => Ok(VecElementConversionResult::Converted(UGlue { _id: t.id, _ver: t.ver })),
                 "a" => Ok(VecElementConversionResult::Abandonned),
-                "e" => Err(ErrVal(3000 + k)),
-                _ => std::panic::panic_any(Payload(4000 + k)),
+                "e" => Err(ErrVal(300000 + k)),
+                _ => std::panic::panic_any(Payload(400000 + k)),
             }
         })
     }));
@@ -267,6 +267,22 @@ fn run_pod(n: usize, script: &[String]) -> (String, String) {
     if n == 0 { pcalls = 0; }
     let plen = if pk == "done" { produced } else { 0 };
     (format!("{} len={} udrops={} calls={}", kind, len, ud, calls), format!("{} len={} udrops={} calls={}", pk, plen, produced, pcalls))
+}
+
+/// the same conversion, called from a destructor that runs while the thread is unwinding from an unrelated panic
+/// (`std::thread::panicking()` is true): the outcome must not depend on that
+fn run_pod_unwinding(n: usize, script: &[String]) -> (String, String) {
+    struct Guard<'a> { n: usize, script: &'a [String], out: &'a RefCell<Option<(String, String)>> }
+    impl<'a> Drop for Guard<'a> {
+        fn drop(&mut self) { *self.out.borrow_mut() = Some(run_pod(self.n, self.script)); }
+    }
+    let out = RefCell::new(None);
+    let _ = std::panic::catch_unwind(std::panic::AssertUnwindSafe(|| {
+        let _g = Guard { n, script, out: &out };
+        std::panic::panic_any(Payload(99));
+    }));
+    let r = out.borrow_mut().take();
+    r.unwrap_or(("destructor did not run".into(), "-".into()))
 }
 
 // ---- refusal of zero-size element types (C10): size 0 on both sides but different alignment; zero vs non-zero size ----
@@ -379,6 +395,10 @@ fn main() {
                     let (a, b) = run_pod(n, &script);
                     writeln!(zst, "pod {} | {} | {}", script.join(" "), a, b).unwrap();
                 }
+                if (idx % 64 == 5 || n <= 2) && script.iter().take(n).all(|c| matches!(c.as_str(), "c" | "t" | "r" | "a" | "e")) {
+                    let (a, b) = run_pod_unwinding(n, &script);
+                    writeln!(zst, "pod-while-unwinding {} | {} | {}", script.join(" "), a, b).unwrap();
+                }
             }
         }
         // refusal matrix, every length 0..=maxlen
@@ -393,6 +413,17 @@ fn main() {
     } else if let Some(path) = mode.strip_prefix("file:") {
         for line in std::fs::read_to_string(path).unwrap().lines() {
             let t: Vec<&str> = line.split(' ').collect();
+            if t.first() == Some(&"zst") {
+                // a side script from a replay file: `zst [pod|pod-while-unwinding] <codes>` or `zst refuse <pair> n=<n>`
+                let rest: Vec<String> = t[1..].iter().filter(|x| !x.is_empty()).map(|x| x.to_string()).collect();
+                match rest.first().map(|x| x.as_str()) {
+                    Some("refuse") => { let n = rest.get(2).and_then(|x| x.strip_prefix("n=")).and_then(|x| x.parse().ok()).unwrap_or(0); refusals(n, &mut zst); }
+                    Some("pod") => { let sc = rest[1..].to_vec(); let (a, b) = run_pod(sc.len(), &sc); writeln!(zst, "pod {} | {} | {}", sc.join(" "), a, b).unwrap(); }
+                    Some("pod-while-unwinding") => { let sc = rest[1..].to_vec(); let (a, b) = run_pod_unwinding(sc.len(), &sc); writeln!(zst, "pod-while-unwinding {} | {} | {}", sc.join(" "), a, b).unwrap(); }
+                    _ => { let (a, b) = run_zst(rest.len(), &rest); writeln!(zst, "{} | {} | {}", rest.join(" "), a, b).unwrap(); }
+                }
+                continue;
+            }
             if t.first() != Some(&"vec") || t.len() < 6 { continue; }
             let lay: Vec<usize> = t[1..5].iter().map(|x| x.parse().unwrap()).collect();
             let n: usize = t[5].parse().unwrap();
@@ -408,14 +439,17 @@ fn main() {
     } else {
         let mut rng = Rng::new(seed);
         for i in 0..count {
+            // mostly short; some long; a few large ones (over a thousand small elements, or tens of 4 KiB elements: size thresholds)
             let long = rng.chance(1, 20);
-            let n = if long { rng.below(200) } else { rng.below(24) };
+            let huge = i % 97 == 11;
+            let bigmany = i % 89 == 13;
+            let n = if huge { 1100 + rng.below(2000) } else if bigmany { 40 + rng.below(60) } else if long { rng.below(200) } else { rng.below(24) };
             let failing = rng.chance(1, 2);
             let fail_at = rng.below(n.max(1));
             let script: Vec<String> = (0..n).map(|k| {
                 if failing && k == fail_at { CODES[4 + rng.below(4)].to_string() } else { CODES[rng.below(4)].to_string() }
             }).collect();
-            let pair = match i % 10 { 0 | 1 | 3 => "plain", 2 => "plain-w", 4 | 6 => "heap", 5 => "heap-w", 7 => "over", 8 => if n <= 40 { "big" } else { "plain" }, _ => *rng.pick(&["ne-size", "ne-align", "ne-both", "ne-heap", "ne-align-down", "ne-align-down2", "ne-size-down"]) };
+            let pair = if huge { "plain" } else if bigmany { "big" } else { match i % 10 { 0 | 1 | 3 => "plain", 2 => "plain-w", 4 | 6 => "heap", 5 => "heap-w", 7 => "over", 8 => if n <= 40 { "big" } else { "plain" }, _ => *rng.pick(&["ne-size", "ne-align", "ne-both", "ne-heap", "ne-align-down", "ne-align-down2", "ne-size-down"]) } };
             emit(pair, n, &script, &mut req, &mut imp);
             nscripts += 1;
             if i % 10 == 0 {
@@ -425,6 +459,10 @@ fn main() {
             if i % 10 == 5 {
                 let (a, b) = run_pod(n, &script);
                 writeln!(zst, "pod {} | {} | {}", script.join(" "), a, b).unwrap();
+            }
+            if i % 8 == 1 && script.iter().take(n).all(|c| matches!(c.as_str(), "c" | "t" | "r" | "a" | "e")) {
+                let (a, b) = run_pod_unwinding(n, &script);
+                writeln!(zst, "pod-while-unwinding {} | {} | {}", script.join(" "), a, b).unwrap();
             }
             if i % 500 == 7 { refusals(n % 9, &mut zst); }
         }
